@@ -60,6 +60,11 @@ def make_inputs(config, seed):
     Bf = {"fcst": field(miss=[(1, 0, 0)]), "pit": field(), "p1": field(miss=[(1, 1, 1)]), "q0.5": field()}
     if config != "noobs":
         Bf["obs"] = dict(obsvals)
+    if config == "emptyslice":
+        # every forecast of B at the second lead time is missing: that slice has no valid case for any request using fcst
+        for pos in list(Bf["fcst"]):
+            if pos[1] == 1:
+                del Bf["fcst"][pos]
     B = gen.AInput("B", t, l, locs, Bf)
     clim = None
     if config == "clim":
@@ -89,6 +94,10 @@ MENU12 = [
 MENU16 = MENU12 + [ev(["fcst"], 0, "no", 0, single=True), ev(["obs"], 1, "leadtime", 0, single=True),
                    ev(["obs", "fcst"], 1, "all"), ev(["obs", "fcst"], 0, "leadtimeday", 1)]
 MENU8 = [MENU12[i] for i in (0, 1, 3, 4, 6, 7, 10, 11)]
+# requests that hit a slice without any valid case (and neighbours sharing its cache entries)
+MENU_EMPTY = [ev(["obs", "fcst"], 0, "leadtime", 1), ev(["fcst"], 0, "leadtime", 1, single=True), ev(["fcst"], 0, "leadtime", 1), ev(["obs", "fcst"], 1, "leadtime", 1),
+              ev(["obs", "fcst"], 0, "leadtime", 0), ev(["obs", "fcst"], 0, "all"), ev(["fcst"], 1, "leadtimeday", 1, single=True), (("M", "mae"), False, 0, "leadtime", None),
+              (("M", "fcst"), False, 1, "leadtime", None)]
 
 
 def big_menu(small=False):
@@ -337,10 +346,10 @@ def sub_repeat(tier):
 def plan(tier):
     if tier == "quick":
         return [("fix-plain", "plain", MENU12, None), ("fix-obsrange", "obsrange", MENU8, None),
-                ("fix-noobs", "noobs", MENU8, None), ("fix-clim", "clim", MENU8, None),
+                ("fix-noobs", "noobs", MENU8, None), ("fix-clim", "clim", MENU8, None), ("fix-emptyslice", "emptyslice", MENU_EMPTY, None),
                 ("depth2-big", "plain", big_menu(small=True), 2)]
     return [("fix-plain", "plain", MENU16, None), ("fix-obsrange", "obsrange", MENU12, None),
-            ("fix-noobs", "noobs", MENU12, None), ("fix-clim", "clim", MENU12, None),
+            ("fix-noobs", "noobs", MENU12, None), ("fix-clim", "clim", MENU12, None), ("fix-emptyslice", "emptyslice", MENU_EMPTY + MENU8[:4], None),
             ("depth2-big", "plain", big_menu(), 2), ("depth3-mid", "plain", big_menu(small=True), 3), ("depth2-big-clim", "clim", big_menu(), 2),
             ("depth2-big-obsrange", "obsrange", big_menu(), 2)]
 
